@@ -144,13 +144,13 @@ func Script(asserts []*Term, getVals []*Term) string {
 		if t.Op == OpVar || t.Op == OpConst {
 			return t.head(nil)
 		}
-		return fmt.Sprintf("t%d", t.ID)
+		return fmt.Sprintf("$t%d", t.ID)
 	}
 	for _, t := range order {
 		if t.Op == OpVar || t.Op == OpConst {
 			continue
 		}
-		fmt.Fprintf(&sb, "(define-fun t%d () %s %s)\n", t.ID, t.Sort, t.head(ref))
+		fmt.Fprintf(&sb, "(define-fun $t%d () %s %s)\n", t.ID, t.Sort, t.head(ref))
 	}
 	for _, a := range asserts {
 		fmt.Fprintf(&sb, "(assert %s)\n", ref(a))
